@@ -5,7 +5,7 @@ from . import core, tv
 
 
 def run_property(pid, cases, tier, chunk=30, title='', bounds=None, cfg=None, extra_evidence=None, level='translation_validation',
-                 assumptions=None, post=None, z3_timeout_ms=30000, minify=False, keep_all_too=False, heavy=None):
+                 assumptions=None, post=None, z3_timeout_ms=30000, minify=False, keep_all_too=False, heavy=None, confirm='native'):
     t0 = time.time()
     work = os.path.join(core.scratch(), pid)
     os.makedirs(work, exist_ok=True)
@@ -49,6 +49,18 @@ def run_property(pid, cases, tier, chunk=30, title='', bounds=None, cfg=None, ex
             go_lines, go_end = tv.normalise_output(info['go']['rc'], info['go']['stdout'], info['go']['stderr'])
             js_lines, js_end = tv.normalise_output(info['js']['rc'], info['js']['stdout'], info['js']['stderr'])
             differs = (go_lines != js_lines) or (go_end != js_end)
+            if confirm == 'reference':
+                # no native counterpart (the program talks to JavaScript): the real gopherjs+node output for the model's inputs is
+                # compared with the reference itself; it is a violation iff no alternative of the reference produces it
+                z3c = core.Z3Session(timeout_ms=z3_timeout_ms)
+                try:
+                    bad = tv.confirm_against_reference(case, v, js_lines, js_end, z3c)
+                finally:
+                    z3c.close()
+                rec0 = {'tag': v['tag'], 'why': v['why'], 'model': v['model'], 'go': ['(no native counterpart)', ''], 'js': [js_lines, js_end], 'replay': outdir,
+                        'note': 'confirmed by evaluating the reference on the real gopherjs+node output'}
+                (confirmed if bad else spurious).append(rec0)
+                continue
             uses_word = any(t in ('int', 'uint', 'uintptr') for t in case.inputs.values()) or '_int_' in v['tag'] or '_uint_' in v['tag'] or '_uintptr_' in v['tag']
             rec = {'tag': v['tag'], 'why': v['why'], 'model': v['model'], 'solver_values': v.get('values'), 'go': [go_lines, go_end], 'js': [js_lines, js_end], 'replay': outdir}
             if not differs and uses_word and v.get('values'):
